@@ -187,14 +187,16 @@ def run(rep, tier):
             if not rel:
                 continue
             if b_ is g:
-                sites = [e.block for (_, e) in rel]
+                sites = [e.block for (_, e) in rel if e.fn is g]      # (the closures are judged at their invocation sites below)
             else:
                 sites = [e.block for e in g.calls() if b_.id in prog.callee_nodes(e)]
                 # the rollback closure (invoked only on error edges) restores, it does not release
                 if sites and all(any(g.dominates(t, sb_) for t in err_t) for sb_ in sites):
                     continue
             for sb_ in sites:
-                if not (okw and any(g.dominates(t, sb_) for t in okw)):
+                # behind the write's Ok edge: by dominance, or path-sensitively (remove_impl skips the DELETE only when there is no
+                # document, and then releases nothing)
+                if not (okw and (any(g.dominates(t, sb_) for t in okw) or valueflow.must_pass_ps(g, okw, [sb_]))):
                     early.append(sb_)
         rep.ob("R04.7", "released-after-durable|%s" % name, bool(wr) and not early,
                "%s takes the document's old values out of the B-tree indexes before its storage write is acknowledged: while that write is in flight another "
